@@ -1,6 +1,7 @@
 /-
   C13 — property theorems (model and specification: ShelxModel/C13.lean; thresholds, bond condition and radii:
-  ShelxModel/Extracted/SdmC13.lean, regenerated from sdm.py / elements.py on every run).
+  ShelxModel/Extracted/SdmC13.lean, regenerated on every run by running the code of the tree under test on
+  symbolic numbers: extract/probe_c13.py).
 
   PARTIAL, and explicit about it: the theorems are about EXACT arithmetic. They are stated over an arbitrary
   linearly ordered field `K` (ℚ, ℝ …) and take `floor` and `sqrt` as functions with their defining properties as
@@ -9,6 +10,7 @@
   The thresholds baked into `calc_sdm` appear as hypotheses exactly where the proofs need them.
 -/
 import ShelxModel.C13
+import ShelxModel.Extracted.C13Src
 import Mathlib.Tactic.Ring
 import Mathlib.Tactic.Linarith
 import Mathlib.Tactic.NormNum
@@ -206,14 +208,33 @@ theorem recipBound_orthogonal {sq : K → K} (hs : IsSqrt sq) {a b c : K} (ha : 
     rw [e]; simp only [quadForm, Cell.ofLengths]
     nlinarith [mul_self_nonneg (v.x * a), mul_self_nonneg (v.y * b)]
 
+/-! ### the tie to the traced source (`ShelxModel/Extracted/C13Src.lean`, regenerated on every run) -/
+
+/-- `SDM.__init__` + `SDM.vector_length` of the working tree, executed on symbolic numbers by the tracing translator
+    (extract/trace_c13.py), is the model's `vectorLength` on `Cell.ofLengths` — for all cells and all vectors, however
+    the code spells or pre-computes the quadratic form (`ring` under the square root). -/
+theorem src_vectorLength (sq : K → K) (a b c ca cb cg x y z : K) :
+    Src.vectorLength sq a b c ca cb cg x y z = vectorLength sq (Cell.ofLengths a b c ca cb cg) ⟨x, y, z⟩ := by
+  unfold Src.vectorLength vectorLength quadForm Cell.ofLengths
+  congr 1
+  ring
+
+example : Src.vectorLength (fun q : ℚ => q) 2 3 4 0 0 (1/2) 1 1 0 = 19 := by
+  unfold Src.vectorLength; norm_num
+
 /-! ### the bond criterion -/
 
-/-- the PART/hydrogen condition as the source spells it (regenerated) is the rule of the statement:
-    never between different non-zero PARTs, hydrogens only within the same PART -/
+/-- the PART/hydrogen condition as the code decides it (regenerated: the decision tree of the tests the code makes
+    on the PART numbers, per combination of hydrogen flags) is the rule of the statement:
+    never between different non-zero PARTs, hydrogens only within the same PART.
+    The proof does not depend on the shape of the tree: per combination of hydrogen flags either `simp` + `omega`
+    on the whole expression, or every `if` split and the leaves closed by `simp_all` / `omega`. -/
 theorem bondAllowed_iff_rule (h1 h2 : Bool) (p1 p2 : Int) :
     Extracted.bondAllowed h1 h2 p1 p2 = true ↔ ruleAllowed h1 h2 p1 p2 := by
   unfold Extracted.bondAllowed ruleAllowed
-  cases h1 <;> cases h2 <;> simp <;> omega
+  cases h1 <;> cases h2 <;> first
+    | (simp <;> omega)
+    | (simp only [] <;> (try split_ifs) <;> (try simp_all) <;> (try omega))
 
 /-- **covalent_iff_rule**: `covalent` of an `SDMItem` is the library's bonding rule applied to the reported
     distance. Hypothesis `hd`: the distance is not below the limit the code uses where no bond is allowed
